@@ -31,6 +31,18 @@ Fixpoint mapM {A B} (f : A -> res B) (l : list A) : res (list B) :=
 (* ------------------------------------------------------------------------------------------ *)
 Definition peval (cs : list Qc) (t : Qc) : Qc := fold_right (fun c acc => c + t * acc) 0 cs.
 Definition pmap (cs : list Qc) (v : vec) : vec := map (peval cs) v.
+(* formal derivative of a coefficient list: D(c + X p) = p + X D(p) *)
+Fixpoint padd (p q : list Qc) : list Qc :=
+  match p, q with
+  | [], _ => q
+  | _, [] => p
+  | a :: p', b :: q' => (a + b) :: padd p' q'
+  end.
+Fixpoint pderiv (cs : list Qc) : list Qc :=
+  match cs with
+  | [] => []
+  | _ :: p => padd p (0 :: pderiv p)
+  end.
 Definition omap (m : option (list Qc)) (v : vec) : vec :=
   match m with Some cs => pmap cs v | None => v end.
 
@@ -245,11 +257,13 @@ Definition ggrad_sel (gg : ggrad) : tsel :=
 Record quirks := mkQ {
   q_defeq : bool;          (* _DefaultGeometry1D.__eq__ accepts strict subclasses of Continuous1D *)
   q_samples_par : bool;    (* _apply_func treats every Samples column as parameters (flag ignored) *)
+  q_typeis : bool;         (* _apply_func decides "input is a CUQIarray" by `type(x) is CUQIarray`: an instance of
+                              a SUBCLASS of CUQIarray is converted like one but its output is not re-wrapped *)
   q_eqidx : bool           (* _all_values_equal indexes list attributes of different length (IndexError)
                               and looks up every attribute of the left operand in the right one (KeyError) *)
 }.
-Definition q_today : quirks := mkQ true true true.
-Definition q_fixed : quirks := mkQ false false false.
+Definition q_today : quirks := mkQ true true true true.
+Definition q_fixed : quirks := mkQ false false false false.
 
 Definition opt_qcl_eqb := opt_eqb qcl_eqb.
 Definition fields_eqb (a b : geo) : bool :=
@@ -337,6 +351,7 @@ Record fwd := mkFwd { f_apply : vec -> vec; f_keeps_tag : bool }.
 Inductive input :=
 | InVec (v : vec)                           (* ndarray *)
 | InArr (g : geo) (apar : bool) (v : vec)   (* CUQIarray(v, is_par=apar, geometry=g) *)
+| InSub (g : geo) (apar : bool) (v : vec)   (* instance of a user subclass of CUQIarray, same attributes *)
 | InSamples (items2d : bool) (cols : list vec).   (* Samples, one column per sample; items2d: each
                                                sample is an (r, c) array of function values *)
 
@@ -344,6 +359,7 @@ Inductive input :=
 Inductive output :=
 | OutVec (v : vec) (z : bool)
 | OutArr (g : geo) (v : vec) (z : bool)     (* CUQIarray(v, is_par=True, geometry=g) *)
+| OutSub (g : geo) (ip : bool) (v : vec) (z : bool)   (* subclass instance still labelled (g, is_par=ip) *)
 | OutSamples (g : geo) (cols : list vec).   (* Samples(out, geometry=g) *)
 
 (* the end of _2par: wrapped with `geom` on request, else whatever the value is by now *)
@@ -353,6 +369,13 @@ Definition wrap_out (to_arr : bool) (geom : geo) (r : p2r) : output :=
        | Some (g, _) => OutArr g (p_v r) (p_0d r)
        | None => OutVec (p_v r) (p_0d r)
        end.
+
+(* a subclass instance that was not re-wrapped: it keeps whatever label it ended up with *)
+Definition wrap_sub (r : p2r) : output :=
+  match p_tag r with
+  | Some (g, ip) => OutSub g ip (p_v r) (p_0d r)
+  | None => OutVec (p_v r) (p_0d r)
+  end.
 
 (* Model._apply_func on one array *)
 Definition apply_one (q : quirks) (F : fwd) (rg dg : geo) (in2d : bool) (x : vec) (t : tag) (is_par : bool) : res p2r :=
@@ -364,6 +387,8 @@ Definition forward (q : quirks) (F : fwd) (rg dg : geo) (x : input) (is_par : bo
   match x with
   | InVec v => rmap (wrap_out false rg) (apply_one q F rg dg false v None is_par)
   | InArr g ap v => rmap (wrap_out true rg) (apply_one q F rg dg false v (Some (g, ap)) is_par)
+  | InSub g ap v => rmap (fun r => if q_typeis q then wrap_sub r else wrap_out true rg r)
+                         (apply_one q F rg dg false v (Some (g, ap)) is_par)
   | InSamples s2d cols =>
       rmap (OutSamples rg)
            (mapM (fun c => rmap p_v (apply_one q F rg dg s2d c None (if q_samples_par q then true else is_par))) cols)
@@ -501,10 +526,11 @@ Definition out_kind (o : output) : nat :=
   match o with
   | OutVec _ z => if z then 3%nat else 0%nat
   | OutArr _ _ z => if z then 4%nat else 1%nat
+  | OutSub _ ip _ z => ((if ip then 5 else 7) + (if z then 1 else 0))%nat
   | OutSamples _ _ => 2%nat
   end.
 Definition out_cols (o : output) : list vec :=
-  match o with OutVec v _ => [v] | OutArr _ v _ => [v] | OutSamples _ cs => cs end.
+  match o with OutVec v _ => [v] | OutArr _ v _ => [v] | OutSub _ _ v _ => [v] | OutSamples _ cs => cs end.
 
 Definition check_out (r : res output) (o : observed) : bool :=
   match r, o with
@@ -520,6 +546,10 @@ Definition check_forward (q : quirks) (F : fwd) (rg dg : geo) (x : input) (is_pa
 Definition check_gradient (q : quirks) (gf : gfun) (rg dg : geo) (d w : ginput) (dpar wpar : bool)
            (o : observed) (geom_is_domain : bool) : bool :=
   check_out (gradient q gf rg dg d w dpar wpar) o && geom_is_domain.
+
+(* cells in which only "refused" is compared (exception class not modelled) *)
+Definition check_refused (r : res output) (raised : bool) : bool :=
+  match r with Err _ => raised | Ok _ => negb raised end.
 
 Definition model_eqb (a b : model_obj) : bool :=
   Nat.eqb (m_forward_func a) (m_forward_func b) && Nat.eqb (m_gradient_func a) (m_gradient_func b) &&
